@@ -67,6 +67,7 @@ struct Script { char rs = 'c'; long v = 0; std::vector<Op> ops; };
 struct AccOp { std::string m; long k = 0, j = 0; };
 struct Program
 {
+  std::map<long, std::vector<long>> owns;   // functor body -> shared trackables each copy co-owns
   std::map<long, Script> scripts;
   std::map<long, std::vector<AccOp>> accs;
   std::vector<Op> main;
@@ -79,20 +80,31 @@ static void ev(const char* fmt, ...) __attribute__((format(printf, 1, 2)));
 static void ev(const char* fmt, ...)
 {
   char buf[256];
-  va_list ap; va_start(ap, fmt); vsnprintf(buf, sizeof buf, fmt, ap); va_end(ap);
-  g_trace->append(buf); g_trace->push_back(' ');
+  va_list ap; va_start(ap, fmt); int n = vsnprintf(buf, sizeof buf, fmt, ap); va_end(ap);
+  if (n >= (int)sizeof buf)
+  {
+    std::vector<char> big(n + 1);
+    va_list ap2; va_start(ap2, fmt); vsnprintf(big.data(), big.size(), fmt, ap2); va_end(ap2);
+    g_trace->append(big.data());
+  }
+  else g_trace->append(buf);
+  g_trace->push_back(' ');
 }
 
 static int run_script(long body, int arg);
 
 // live functor instances per body id
 static long g_sc_live[4096];
+struct TrA;
+struct TrB;
+static void collect_owned(long body, std::vector<std::shared_ptr<void>>& out);
 struct SC
 {
   long body;
-  explicit SC(long b) : body(b) { ++g_sc_live[body]; }
-  SC(const SC& o) : body(o.body) { ++g_sc_live[body]; }
-  SC& operator=(const SC& o) { --g_sc_live[body]; body = o.body; ++g_sc_live[body]; return *this; }
+  std::vector<std::shared_ptr<void>> keep;   // shared trackables this functor co-owns
+  explicit SC(long b) : body(b) { ++g_sc_live[body]; collect_owned(b, keep); }
+  SC(const SC& o) : body(o.body), keep(o.keep) { ++g_sc_live[body]; }
+  SC& operator=(const SC& o) { --g_sc_live[body]; body = o.body; keep = o.keep; ++g_sc_live[body]; return *this; }
   ~SC() { --g_sc_live[body]; }
   template <class... T>
   int operator()(int arg, T&...) const
@@ -116,6 +128,10 @@ struct TrVar
 {
   TrA* a = nullptr;
   TrB* b = nullptr;
+  std::shared_ptr<void> sp;   // set for shared trackables while the program holds its handle
+  bool shared = false;
+  bool released = false;
+  std::weak_ptr<void> wp;     // shared trackables: still alive?
   sigc::trackable& base() { return a ? static_cast<sigc::trackable&>(*a) : static_cast<sigc::trackable&>(*b); }
   void destroy() { delete a; delete b; a = nullptr; b = nullptr; }
 };
@@ -159,6 +175,11 @@ struct ScriptAcc
       if (o.m == "acopy") { setc(o.k, getc(o.j)); }
       else if (o.m == "ainc") { It c = getc(o.k); if (c != last) { ++c; setc(o.k, c); } }
       else if (o.m == "adec") { It c = getc(o.k); if (c != first) { --c; setc(o.k, c); } }
+      // postfix forms: same meaning, different operators of slot_iterator_buf
+      else if (o.m == "aincp") { It c = getc(o.k); if (c != last) { c++; setc(o.k, c); } }
+      else if (o.m == "adecp") { It c = getc(o.k); if (c != first) { c--; setc(o.k, c); } }
+      else if (o.m == "awalkp") { It c = getc(o.k); while (c != last) { int v = *c; step(v); c++; } setc(o.k, c); }
+      else if (o.m == "awalkrevp") { It c = last; while (c != first) { c--; int v = *c; step(v); } setc(o.k, c); }
       else if (o.m == "aderef") { It c = getc(o.k); if (c != last) { int v = *c; step(v); setc(o.k, c); } }
       else if (o.m == "awalk") { It c = getc(o.k); while (c != last) { int v = *c; step(v); ++c; } setc(o.k, c); }
       else if (o.m == "awalkuntil")
@@ -269,10 +290,38 @@ struct Table
   void drop(long k) { live.erase(k); }
 };
 static Table<TrVar>* g_tr;
+// a trackable the program can still name (plain: exists; shared: handle not released)
+static TrVar* prog_tr(long k);
+// a live trackable object (shared ones may outlive the program's handle)
+static TrVar* live_tr(long k);
 static Table<SlotVar>* g_sl;
 static Table<GBase*>* g_sg;
 static Table<sigc::connection*>* g_cn;
 static Table<sigc::scoped_connection*>* g_kn;
+
+static TrVar* live_tr(long k)
+{
+  TrVar* t = g_tr->get(k);
+  if (!t) return nullptr;
+  if (t->shared && t->wp.expired()) return nullptr;
+  return t;
+}
+static TrVar* prog_tr(long k)
+{
+  TrVar* t = live_tr(k);
+  return (t && !t->released) ? t : nullptr;
+}
+static void collect_owned(long body, std::vector<std::shared_ptr<void>>& out)
+{
+  if (!g_prog) return;
+  auto f = g_prog->owns.find(body);
+  if (f == g_prog->owns.end()) return;
+  for (long t : f->second)
+  {
+    TrVar* v = g_tr->get(t);
+    if (v && v->shared) { auto sp = v->wp.lock(); if (sp) out.push_back(sp); }
+  }
+}
 
 // ---- functor construction over 0..3 trackable references of either class -------------------
 template <class F>
@@ -372,27 +421,51 @@ static void exec_op(const Op& o)
     if (g_tr->fresh(t) && t < 1000) { TrVar v; if (t % 2 == 0) v.a = new TrA; else v.b = new TrB; g_tr->put(t, v); }
     else ev("-");
   }
+  else if (m == "tnewsh")
+  {
+    long t = A(0);
+    if (g_tr->fresh(t) && t < 1000)
+    {
+      TrVar v; v.shared = true;
+      if (t % 2 == 0) { auto p = std::make_shared<TrA>(); v.a = p.get(); v.sp = p; }
+      else { auto p = std::make_shared<TrB>(); v.b = p.get(); v.sp = p; }
+      v.wp = v.sp;
+      g_tr->put(t, v);
+    }
+    else ev("-");
+  }
+  else if (m == "trel")
+  {
+    TrVar* t = live_tr(A(0));
+    if (t && t->shared && !t->released) { t->released = true; auto sp = std::move(t->sp); t->sp.reset(); sp.reset(); }
+    else ev("-");
+  }
   else if (m == "tdel")
   {
-    TrVar* t = g_tr->get(A(0));
-    if (t) { TrVar c = *t; g_tr->drop(A(0)); c.destroy(); } else ev("-");
+    TrVar* t = live_tr(A(0));
+    if (t && !t->shared) { TrVar c = *t; g_tr->drop(A(0)); c.destroy(); } else ev("-");
   }
   else if (m == "tasg" || m == "tmasg")
   {
-    TrVar* d = g_tr->get(A(0)); TrVar* s = g_tr->get(A(1));
+    TrVar* d = prog_tr(A(0)); TrVar* s = prog_tr(A(1));
     if (d && s) { if (m == "tasg") d->base() = s->base(); else d->base() = std::move(s->base()); }
     else ev("-");
   }
   else if (m == "tnot")
   {
-    TrVar* t = g_tr->get(A(0));
+    TrVar* t = prog_tr(A(0));
     if (t) t->base().notify_callbacks(); else ev("-");
   }
   else if (m == "snew")
   {
     long s = A(0);
     bool refs_ok = true;
-    for (long r : o.refs) if (!g_tr->get(r)) refs_ok = false;
+    for (long r : o.refs) if (!prog_tr(r)) refs_ok = false;
+    {
+      auto f = g_prog->owns.find(A(1));
+      if (f != g_prog->owns.end())
+        for (long t : f->second) if (g_tr->fresh(t)) refs_ok = false;
+    }
     if (g_sl->fresh(s) && refs_ok)
     {
       SlotVar v; bool ok;
@@ -609,7 +682,7 @@ static void exec_op(const Op& o)
     for (long b = 0; b < 4096; ++b)
       for (long k = 0; k < g_sc_live[b]; ++k) { if (!f.empty()) f += ","; f += std::to_string(b); }
     std::vector<std::pair<long, size_t>> regs;
-    for (auto& kv : g_tr->live) regs.push_back({kv.first, probe_regs(kv.second.base())});
+    for (auto& kv : g_tr->live) if (live_tr(kv.first)) regs.push_back({kv.first, probe_regs(kv.second.base())});
     for (auto& kv : g_sg->live) if (kv.second->tr()) regs.push_back({1000 + kv.first, probe_regs(*kv.second->tr())});
     std::sort(regs.begin(), regs.end());
     for (auto& p : regs) { if (!r.empty()) r += ","; r += std::to_string(p.first) + "=" + std::to_string(p.second); }
@@ -621,12 +694,12 @@ static void exec_op(const Op& o)
 
 // ---------------------------------------------------------------------------------------------
 // parsing
-static bool is_section(const std::string& t) { return t == "S" || t == "A" || t == "M"; }
+static bool is_section(const std::string& t) { return t == "S" || t == "A" || t == "M" || t == "O"; }
 
 static const std::map<std::string, int>& arity()
 {
   static const std::map<std::string, int> a = {
-    {"tnew",1},{"tdel",1},{"tasg",2},{"tmasg",2},{"tnot",1},
+    {"tnew",1},{"tnewsh",1},{"trel",1},{"tdel",1},{"tasg",2},{"tmasg",2},{"tnot",1},
     {"scopy",2},{"smove",2},{"sasg",2},{"smasg",2},{"scall",3},{"sblock",2},{"sdisc",1},{"sdel",1},{"sq",1},
     {"gcopy",2},{"gmove",2},{"gasg",2},{"gmasg",2},{"gdel",1},{"gconn",5},{"gemit",3},{"gclear",1},{"gblock",2},{"gq",1},{"gmk",2},
     {"cempty",1},{"ccopy",2},{"casg",2},{"cdisc",1},{"cblock",2},{"cdel",1},{"cq",1},
@@ -694,6 +767,12 @@ static bool parse_program(const std::string& line, Program& pr)
         pr.accs[id] = ops;
       }
       else if (sec == "M") { if (!parse_ops(t, p, pr.main)) return false; }
+      else if (sec == "O")
+      {
+        long b = atol(t.at(p++).c_str()); long n = atol(t.at(p++).c_str());
+        std::vector<long> ts; for (long i = 0; i < n; ++i) ts.push_back(atol(t.at(p++).c_str()));
+        pr.owns[b] = ts;
+      }
       else return false;
     }
   }
@@ -808,7 +887,7 @@ static std::string run_sig(const std::string& line)
       for (auto& kv : cn.live) delete kv.second;
       for (auto& kv : sl.live) { delete kv.second.i; delete kv.second.v; }
       for (auto& kv : sg.live) delete kv.second;
-      for (auto& kv : tr.live) kv.second.destroy();
+      for (auto& kv : tr.live) { if (kv.second.shared) kv.second.sp.reset(); else kv.second.destroy(); }
       (void)left;
       in_tables = 0;
     }
